@@ -1,5 +1,9 @@
 /- Driver ops for the Cmd model (C17): `cmd.parse`, `cmd.serial`, `cmd.async`.
 
+   An instruction string identifies the CONTENT of a command; the configuration may hold it any number of
+   times (identical entries). Process ids in the observations are those of the instruction strings: an id
+   occurs as often as processes of that instruction were started / finished / failed.
+
    All three take the step's configuration as a wire value (`cfg`; absent = no such context key), whether
    the step is a shell step (`shell`), and — the run ops — the *world*: the scripted outcome of every
    instruction string (`procs`) and of every output path (`paths`). The model parses the configuration
@@ -138,14 +142,25 @@ def checkCommand (ws : WorldSpec) (async : Bool) (c : RawCommand) : Except Strin
       if dec && !p.decodeFails && (hasHigh p.out || hasHigh p.err) && s.enc != some "latin-1" then
         throw "non-ASCII output that decodes under utf-8 is outside the modelled domain"
 
+def hasFile (c : RawCommand) : Bool := !(targetPaths c.set.stdout ++ targetPaths c.set.stderr).isEmpty
+
+/-- An instruction string may occur any number of times (identical entries: the world gives them one and the
+    same outcome, the observations are multisets of ids). Only `filesAsync` resolves a finished process by
+    its id (`writerOf`): there an instruction of a command writing to a file must not occur in another command. -/
 def checkCommands (ws : WorldSpec) (async : Bool) (cs : List RawCommand) : Except String Unit := do
   for c in cs do checkCommand ws async c
-  let names := cs.flatMap (·.run.strings)
-  if names.eraseDups.length != names.length then throw "an instruction string occurs twice in the configuration"
   if async then
     let ps := cs.flatMap fun c => targetPaths c.set.stdout ++ targetPaths c.set.stderr
     if ps.eraseDups.length != ps.length then
       throw "two concurrent commands writing one file is outside the modelled domain"
+    let rec go : List RawCommand → Except String Unit
+      | [] => pure ()
+      | c :: rest => do
+        for d in rest do
+          if (hasFile c || hasFile d) && c.run.strings.any (fun n => d.run.strings.contains n) then
+            throw "an instruction of a concurrent command writing to a file also occurs in another command: outside the modelled domain"
+        go rest
+    go cs
 
 def outJ : Out → Json
   | .none => Json.null
